@@ -345,9 +345,13 @@ func SmallDictItems(r *rand.Rand) ([]*Item, error) {
 		return nil, fmt.Errorf("xz tool not found")
 	}
 	var b []byte
-	if r.Intn(2) == 0 {
+	if k := r.Intn(3); k < 2 {
 		n := 400000 + r.Intn(1200000)
 		period := 1 + r.Intn(300)
+		if k == 1 { // matches at distances just below the dictionary size
+			period = 3000 + r.Intn(1097)
+			n = 30000 + r.Intn(90000)
+		}
 		unit := make([]byte, period)
 		r.Read(unit)
 		for len(b) < n {
